@@ -772,6 +772,11 @@ def flattenImpl : Val → Except Err (List Val)
   | .json _ => .error .conv
   | _ => .error .binder
 
+/-- FLATTEN of a native DuckDB list (array literal / ARRAY_CONSTRUCT, which fakesnow leaves a LIST): the cast to JSON[]
+    parses every VARCHAR item as JSON text, so plain strings fail -/
+def flattenNativeListImpl (items : List Json) : Except Err (List Val) :=
+  if items.any (fun j => j.kind == 3) then .error .conv else .ok (items.map fun j => ofOpt (some j))
+
 /-- `f.value::varchar` → `F.VALUE ->> '$'` (`flatten_value_cast_as_varchar`, transforms.py:505) -/
 def flattenTextImpl (v : Val) : Except Err (List Val) :=
   (flattenImpl v).map fun rows => rows.map fun r => arrow2 r (.path [])
